@@ -448,6 +448,8 @@ func chanClose(ch value) {
 	sched.yield(nil)
 }
 
+var selectPassed = map[*ssa.Select]map[int]int{}
+
 func doSelect(fr *frame, instr *ssa.Select) value {
 	type st struct {
 		c    *gchan
@@ -491,7 +493,34 @@ func doSelect(fr *frame, instr *ssa.Select) value {
 	if len(rs) > 0 {
 		k := 0
 		if len(rs) > 1 {
-			k = eng.Choice("select", len(rs))
+			// select is fair: a case that was ready and passed over twice at this statement is
+			// taken now (Go chooses uniformly at random among the ready cases, so it is starved
+			// for ever with probability 0)
+			forced := -1
+			pass := selectPassed[instr]
+			if pass == nil {
+				pass = map[int]int{}
+				selectPassed[instr] = pass
+			}
+			for j, ci := range rs {
+				if pass[ci] >= 2 {
+					forced = j
+					break
+				}
+			}
+			if forced >= 0 {
+				k = forced
+				eng.assumptions["select fairness: a case that stays ready is chosen at the latest the third time the select statement runs"] = true
+			} else {
+				k = eng.Choice("select", len(rs))
+			}
+			for _, ci := range rs {
+				if ci == rs[k] {
+					pass[ci] = 0
+				} else {
+					pass[ci]++
+				}
+			}
 		}
 		chosen = rs[k]
 		s := states[chosen]
